@@ -585,11 +585,32 @@ def wrappers(index, rep, rule) -> None:
     w = walk_function(ft.node)
     rets = [src(w.expand(e.value, {ft.params()[0].arg: 'G'})) for e in w.events
             if e.kind == 'return' and e.value is not None]
-    good = {'np.ones((G.shape.height, G.shape.width), dtype=bool)',
-            'np.ones(G.shape.as_tuple, dtype=bool)',
-            'np.full((G.shape.height, G.shape.width), True)',
-            'np.ones((G.shape.height, G.shape.width), bool)'}
-    rep.check(len(rets) == 1 and rets[0] in good, rule, VIS, 'fully_transparent',
+    from ..guards import dims_of
+
+    def _all_true(t: str) -> bool:
+        """np.ones(<grid shape>, dtype=bool) / np.full(<grid shape>, True[, dtype=bool])"""
+        try:
+            e = ast.parse(t, mode='eval').body
+        except SyntaxError:
+            return False
+        if not (isinstance(e, ast.Call) and src(e.func) in ('np.ones', 'numpy.ones', 'np.full',
+                                                            'numpy.full') and e.args):
+            return False
+        dims = dims_of(e.args[0])
+        if dims is None and src(e.args[0]) in ('G.shape', 'tuple(G.shape)'):
+            dims = None         # a Shape is a dataclass, not a tuple: not a numpy shape
+        if dims not in (['G.shape.height', 'G.shape.width'], ['G.area.height', 'G.area.width']):
+            return False
+        kw = {k.arg: src(k.value) for k in e.keywords}
+        rest = [src(a_) for a_ in e.args[1:]]
+        boolish = ('bool', 'np.bool_', 'numpy.bool_')
+        if src(e.func).endswith('ones'):
+            dt = kw.get('dtype', rest[0] if rest else None)
+            return dt in boolish and set(kw) <= {'dtype'} and len(rest) <= 1
+        fill = kw.get('fill_value', rest[0] if rest else None)
+        dt = kw.get('dtype', rest[1] if len(rest) > 1 else 'bool')
+        return fill == 'True' and dt in boolish and set(kw) <= {'dtype', 'fill_value'}
+    rep.check(len(rets) == 1 and _all_true(rets[0]), rule, VIS, 'fully_transparent',
               ft.node.lineno, '; '.join(rets),
               'fully_transparent visibility is not an all-true array of the grid shape',
               'fully transparent')
